@@ -85,7 +85,12 @@ def oracle_const_normal(args):
     if len(set(_keys(s) + _keys(s_again))) != len(s) + len(s_again):
         problems.append("const generator: a second call hands out the seed sequences of the first again")
     sigma = np.array(args["sigma"])
-    g = mudslide.TrajGenNormal(x0, k0, 0, sigma, seed=args["seed"], seed_traj=args["tseed"])
+    if args.get("int_sigma"):
+        # an integer-typed width (a python int, an int64 array): the same numbers as the float width
+        sigma = np.maximum(1, np.round(sigma)).astype(np.int64)
+    sigma_in = (int(sigma.flat[0]) if (args.get("int_sigma") == "scalar" and sigma.size == 1) else sigma)
+    g = mudslide.TrajGenNormal(x0, k0, 0, sigma_in, seed=args["seed"], seed_traj=args["tseed"])
+    sigma = np.asarray(sigma, dtype=np.float64)
     s = list(g(ns))
     rng = np.random.default_rng(args["tseed"])
     want = []
@@ -220,6 +225,12 @@ def run(ctx):
         sigma = 10 ** rng.uniform(-0.7, 1.3, size=n)
         args = {"x0": x0, "k0": k0, "sigma": sigma, "ns": int(rng.integers(1, 9)),
                 "seed": int(rng.integers(1, 2 ** 31)), "tseed": int(rng.integers(1, 2 ** 31)), "big": i % 25 == 0}
+        if i % 6 == 5:
+            # integer-VALUED widths (2, 4, 8 ...): the oracle hands them over as a python int / an int64 array
+            sigma = np.array([float(v) for v in rng.integers(1, 9, size=n)])
+            args["sigma"] = sigma
+            args["int_sigma"] = "scalar" if n == 1 else "array"
+            ctx.count("normal:integer_typed_sigma")
         r2 = np.random.default_rng(args["tseed"])
         zx, zk = r2.standard_normal(n), r2.standard_normal(n)
         g = mudslide.TrajGenNormal(x0, k0, 0, sigma, seed=args["seed"], seed_traj=args["tseed"])
